@@ -51,6 +51,20 @@ def _overlap_conds(tier):
                 ("runto,start", 12, 8, -1, -1, False), ("runtoi,runto", 12, 8, -1, 0, False), ("runto,runtoi", 12, 8, -1, 0, False),
                 ("start,start", 12, 4, -1, 0, False), ("runtoi,stop", 7, 4, -1, 0, False),
                 ("start,stop,start", 12, 6, -1, 0, False), ("runto,stop,start", 12, 6, 1, 0, False)]
+    # a run thread that makes no progress while the middle command (a stop) completes: the stop gives up after its one-second
+    # wait and the simulator is left in STOPPING with the run thread still busy; the last command overlaps that
+    stalled = [("start,stop,runto", 12, 1, 2)] if q else [("start,stop,runto", 12, -1, -1), ("runto,stop,start", 12, -1, -1),
+                                                          ("start,stop,start", 12, -1, 0), ("runto,stop,runtoi", 12, -1, 0)]
+    for sc, pmax, arg, warm in stalled:
+        for lo, hi in ((0, 10), (11, 21), (22, 32), (33, 43), (44, 54), (55, 65), (66, 74)):
+            # richer model here (events at 1, 2, 2, replication 0..3: the run thread executes 74 statements): a bound that is
+            # ignored for more than the one iteration in flight shows as two or more events beyond it
+            env = {"VF_SCEN": sc, "VF_STALLS": "010", "VF_VMID": 1, "VF_VMIDHI": 74, "VF_TIMES": "1,2,2", "VF_END": 3, "VF_VLO": 0, "VF_VHI": 0, "VF_PMAX": pmax, "VF_WMAX": 50,
+                   "VF_WSMALL": 3, "VF_ARG": arg, "VF_WARM": warm, "VF_MIDLO": lo, "VF_MIDHI": hi}
+            conds.append(Cond(f"overlap/{sc}/run thread stalled while the stop completes, {lo}..{hi} statements into its run/"
+                              f"pre-emption after <= {pmax} statements of the last command/lead 0..3 or unbounded"
+                              + ("" if arg < 0 else f"/bound={arg}") + ("/warm-up symbolic" if warm < 0 else ""),
+                              "c04b", "h_overlap", env, 900 if q else 3000))
     for sc, pmax, chunks, arg, warm, allw in scen:
         step = (VMAXI + chunks) // chunks
         for lo in range(0, VMAXI + 1, step):
